@@ -145,6 +145,18 @@ def check_sip(case, ctx):
         h.update(p)
     require(h.hash() == want, "siphash/chunked_update",
             f"key={key.hex()} pieces={[p.hex() for p in pieces]}")
+    # a hasher forked with copy() after a prefix: both continue independently
+    cut = cuts[0] if cuts else len(msg) // 2
+    base = SipHash_2_4(key)
+    base.update(msg[:cut])
+    fork = must(base.copy, "siphash/copy")
+    fork.update(msg[cut:])
+    require(fork.hash() == want, "siphash/copy_then_finish", f"key={key.hex()} len={len(msg)} cut={cut}")
+    base.update(b"\x01\x02\x03")
+    require(base.hash() == ref.siphash24(key, msg[:cut] + b"\x01\x02\x03"), "siphash/original_after_copy")
+    require(fork.hash() == want, "siphash/copy_changed_by_original")
+    if cut >= 8:
+        ctx.label("copy_after_full_block")
     # mapping into [0, N*M)
     f = case["n"] * M
     r = must(hash_to_range, "siphash/hash_to_range", key, msg, f)
@@ -544,7 +556,7 @@ def check_bloom(case, ctx):
 LENS = [f"len={n}" for n in range(MAXLEN + 1)]
 SUBS = [
     Sub("siphash", check_sip, strategy=sip_strategy, budget={"quick": 30000, "thorough": 900000},
-        required=LENS + [f"tail={t}" for t in range(8)] + ["chunked"],
+        required=LENS + [f"tail={t}" for t in range(8)] + ["chunked", "copy_after_full_block"],
         nontrivial_rule="every distinct (key, message, split points, N)"),
     Sub("murmur3", check_mur, strategy=mur_strategy, budget={"quick": 30000, "thorough": 900000},
         required=LENS + [f"tail={t}" for t in range(4)] + ["seed>=2^31", "seed=0"],
